@@ -15,6 +15,7 @@ def run(ctx):
     shared.restore_every_id(ctx, "R10")
     shared.exit_set_scope(ctx, "R11")
     shared.dotted_id_tests(ctx, "R8")
+    shared.stale_source_skip(ctx, "R12")      # seeded change C01-e: a transition run from an inactive source enters beneath inactive ancestors
     # R9: start() enters the root
     import ast
     from sa.program import norm
